@@ -14,6 +14,14 @@ def jobs(tier):
                                   "vnacal_new_add_double_reflect_m", "build_connectivity_matrix", "add_equation"],
                        bound="scenario %d of harness/vnacal/c03_add.c (concrete shapes/arguments, symbolic measured values)" % sc,
                        timeout=200))
+    srcs_solve = sorted(set(C20.BASE + C20.SOLVE + C20.common_sources() + ["vnacal_make_unknown_parameter.c"]))
+    for t in ("VNACAL_T8", "VNACAL_UE14"):
+        J.append(V.Job("update_s_partial.%s" % t[7:], "vnacal/c20.c", "h_update_s_partial", srcs_solve,
+                       defines=C20.CUT + ["-DCAL_TYPE=%s" % t, "-DCAL_ROWS=2", "-DCAL_COLS=2"], unwind=20,
+                       union_struct=True, kind="bounded", canary=False,
+                       functions=["_vnacal_new_solve_update_s_matrices", "_vnacal_new_solve_start_frequency"],
+                       bound="%s 2x2, one reflect standard with an unknown parameter (other S cells unspecified)" % t,
+                       timeout=300, cbmc_flags=["--slice-formula"]))
     # memory-safety / leak obligations of the data-structure harnesses (same jobs, re-run under this id)
     def take(mod, pats, prefix):
         for j in mod.jobs("quick"):
